@@ -75,7 +75,8 @@ static void run_message(Rng &r)
 static void run_bundle(Rng &r)
 {
     gen::Elem b = gen::gen_elem(r, (int)r.range(1, 3), true);
-    if(b.kids.size() > 8) b.kids.resize(8);
+    if(b.kids.size() > (size_t)gen::MAX_BUNDLE_ELEMS) b.kids.resize(gen::MAX_BUNDLE_ELEMS);
+    if(b.kids.size() > 8) { count("bundle.more_than_8_elements"); for(auto &k : b.kids) if(!k.is_bundle) { for(auto &v : k.msg.vals) if(v.blob.size() > 64) v.blob.resize(64); } }
     std::string desc = b.render();
     if(desc.size() > 1500) desc.resize(1500);
     describe_case(desc);
